@@ -171,6 +171,58 @@ def u_power_method(h, Xname, iters):
         h.ensure('never-above-true-value', val <= true * (1 + 1e-9))
 
 
+def u_sparse_slice(h, pattern, cols):
+    """sparse_columns_slice (used for the per-group sparse Lipschitz constants) extracts exactly X[:, cols]"""
+    from skglm.utils.sparse_ops import sparse_columns_slice
+    n, p = len(pattern), len(pattern[0])
+    X = _mk_X(h, n, p, pattern)
+    Xs = h.csc(X, pattern)
+    cols_a = np.array(cols, dtype=np.int32)
+    d, ip, ind = sparse_columns_slice(cols_a, Xs.data, Xs.indptr, Xs.indices)
+    h.ensure('indptr-length', len(ip) == len(cols) + 1)
+    h.observe('nnz', float(len(d)))
+    ok = h.true()
+    for k, j in enumerate(cols):
+        col = [0.0] * n
+        for t in range(int(ip[k]), int(ip[k + 1])):
+            col[int(ind[t])] = col[int(ind[t])] + d[t]
+        for i in range(n):
+            ok = h.and_(ok, h.eq(col[i], X[i, j]))
+    h.ensure('slice==X[:,cols]', ok)
+    h.ensure('nnz-preserved', int(ip[-1]) == sum(1 for j in cols for i in range(n) if pattern[i][j]))
+
+
+def u_power_start(h):
+    """the power method must start from a random vector: a fixed start has matrices (dominant singular vector
+    orthogonal to it) on which it returns a value far below the true norm"""
+    from skglm.utils.sparse_ops import spectral_norm
+    from vf import shim
+    if h.mode == 'sym':
+        calls = []
+        orig = shim.rnd.randn
+
+        def counting(*shape):
+            calls.append(shape)
+            return orig(*shape)
+        shim.rnd.randn = counting
+        try:
+            Xc = np.array([[1.0, 1.0], [1.0, -1.0]])
+            Xs = h.csc(h.const(Xc))
+            val = spectral_norm(Xs.data, Xs.indptr, Xs.indices, 2, max_iter=1)
+        finally:
+            shim.rnd.randn = orig
+        h.observe('calls', float(len(calls)))
+        h.ensure('start-vector-drawn-from-rng', len(calls) == 1 and tuple(calls[0]) == (2,))
+    else:
+        # contrast-coded columns (each sums to zero): orthogonal to the all-ones vector
+        Xc = np.array([[1.0, 0.0], [-1.0, 2.0], [0.0, -2.0], [0.0, 0.0]])
+        Xs = h.csc(h.const(Xc))
+        true = float(np.linalg.norm(Xc, ord=2))
+        worst = min(float(spectral_norm(Xs.data, Xs.indptr, Xs.indices, 4)) for _ in range(5))
+        h.observe('calls', 1.0)
+        h.ensure('start-vector-drawn-from-rng', worst >= true * (1 - 1e-3))
+
+
 def u_multitask_lipschitz(h, n, p, T, pattern):
     from vf.dual import Dual
     Dm = D()
@@ -237,6 +289,12 @@ def units(tier):
     for Xn in ('orth22', 'zero_last32', 'single31'):
         for it in ((1,) if tier == 'quick' else (1, 2)):
             us.append(Unit('C09/K/spectral_norm[X=%s,iters=%d]' % (Xn, it), u_power_method, dict(Xname=Xn, iters=it), wall_s=120))
+    pat33 = [[1, 0, 1], [1, 0, 1], [0, 0, 1]]      # empty middle column
+    for pat, cols in ((pat33, [0, 1, 2]), (pat33, [2, 1]), (pat33, [1]), ([[1, 1, 0], [0, 1, 0], [1, 0, 0]], [0, 2, 1]),
+                      ([[0, 1, 1], [0, 0, 1], [0, 1, 1]], [0, 1, 2])):
+        us.append(Unit('C09/K/sparse_columns_slice[pattern=%s,cols=%s]' % (''.join(str(v) for r in pat for v in r), cols),
+                       u_sparse_slice, dict(pattern=pat, cols=cols), wall_s=60))
+    us.append(Unit('C09/K/spectral_norm/random-start', u_power_start, {}, wall_s=60))
     for T in (1, 2):
         us.append(Unit('C09/K/QuadraticMultiTask/get_lipschitz[T=%d]' % T, u_multitask_lipschitz,
                        dict(n=3, p=2, T=T, pattern=PATTERNS_32[1]), wall_s=60))
